@@ -1,7 +1,7 @@
 (* C16 — Compiled bytecode behaves like the tree-walking evaluator.
    Property theorems only; proofs are [exact <lemma of CompileProofs>]. *)
 From Coq Require Import ZArith NArith List String.
-From EvyV Require Import Base Bytecode SymTab Vm VmProofs Compile CompileProofs CompileWfProofs CompileStmtProofs CompileJumpProofs CompileHoleProofs CompileCtlProofs CompileSemProofs.
+From EvyV Require Import Base Bytecode SymTab Vm VmProofs Compile CompileSem CompileProofs CompileWfProofs CompileStmtProofs CompileJumpProofs CompileHoleProofs CompileCtlProofs CompileSemProofs.
 Import ListNotations.
 Open Scope list_scope.
 
